@@ -58,7 +58,15 @@ def gen_create(rng, state, weights):
             rng.shuffle(picks)
         if below_dirs and rng.random() < 0.3:
             d = rng.choice(below_dirs)
-            picks = [p for p in picks if not p.startswith(d + "/")] + [d]
+            inside = [f for f in below if f.startswith(d + "/")]
+            if inside and rng.random() < 0.35:
+                # overlapping arguments: a folder and, once more, a file inside it
+                picks = [d, rng.choice(inside)]
+                rng.shuffle(picks)
+            else:
+                picks = [p for p in picks if not p.startswith(d + "/")] + [d]
+        elif rng.random() < 0.08:
+            picks = picks + [picks[0]]  # the same file named twice
         for p in picks:
             args += ["-sf", _spell(rng, "@R/" + p, weights)]
     else:
